@@ -13,7 +13,7 @@ class Skip(Exception):
 
 
 def run_stream(run, comp, cases, rundir, name, case_type, code_fn, prop_bits, corr_bits=(0,),
-               shrink=True, stream_label=None, max_report=3, shard=300, known=None):
+               shrink=True, stream_label=None, max_report=3, shard=300, known=None, search=None):
     """run: report.Run; comp: component module with run_impl/render/BITS/nontrivial/jsonable
     (optionally shrink(case) -> iterable of smaller cases).
     prop_bits: checker bits whose failure on an implementation output is a failing input for
@@ -56,6 +56,30 @@ def run_stream(run, comp, cases, rundir, name, case_type, code_fn, prop_bits, co
     # correspondence-only disagreements are reported only when no failing input was found
     order = [i for i in sorted(badmap) if _is(badmap[i], prop_bits)]
     order += [i for i in sorted(badmap) if not _is(badmap[i], prop_bits) and _is(badmap[i], corr_bits)]
+    # failing-input search: when model and implementation disagree but no checker of this property rejects an
+    # output of the stream, variants of the disagreeing cases (search(case) -> cases) are run through the
+    # implementation and the verified checkers; a rejected variant is a failing input for the property
+    if search is not None and order and not any(_is(badmap[i], prop_bits) for i in order):
+        cands = []
+        for idx in order[:3]:
+            for c in search(kept[idx]):
+                try:
+                    cands.append((c, comp.run_impl(c)))
+                except Exception:
+                    continue
+                if len(cands) >= 600:
+                    break
+        if cands:
+            bm = coqrun.eval_cases(rundir, name + "_search", comp.IMPORTS, case_type, code_fn,
+                                   [comp.render(c, r) for c, r in cands], shard=shard)
+            base = len(kept)
+            for i in sorted(bm):
+                if _is(bm[i], prop_bits):
+                    kept.append(cands[i][0]); results.append(cands[i][1])
+                    badmap[base] = bm[i]
+                    base += 1
+            order = [i for i in sorted(badmap) if _is(badmap[i], prop_bits)] + order
+            stats["search_candidates"] += len(cands)
     for idx in order:
         code = badmap[idx]
         bits = [k for k in range(16) if code >> k & 1]
